@@ -7,7 +7,7 @@ import json
 from harness import common as C
 from harness import hist, model
 from harness.model import T
-from harness.props.c06 import check_history, attribute_nested_leak, DT
+from harness.props.c06 import check_history, attribute_nested_leak, DT, _spell
 
 STYLES = ['CAMEL', 'SNAKE', 'PASCAL', 'LISP']
 
@@ -88,6 +88,194 @@ def gen_pair(rng, relation):
     return defs, f_ops, g_ops, lite
 
 
+# ---------------------------------------------------------------------------------------------------------------------------
+# the wider universe (source-rendered): how the configured class gets its Meta (inner class / LoadMeta / DumpMeta / both, bound
+# after the class exists), which mixin the classes use (JSONWizard, JSONPyWizard, YAMLWizard, TOMLWizard, JSONFileWizard and
+# combinations), load-side settings (key transform, strict unknown keys) and the special, non-inherited attributes
+# (json_key_to_field, tag).  Oracle only: the Lean cache machine models the dump side of inner Metas.
+
+KINDS = {   # kind -> (bases, can carry an inner Meta, Meta implied by the mixin)
+    'plain': ('', False, None),
+    'json': ('(JSONWizard)', True, None),
+    'py': ('(JSONPyWizard)', True, {'key_transform_with_dump': 'NONE'}),
+    'yaml': ('(YAMLWizard)', False, {'key_transform_with_dump': 'LISP'}),
+    'toml': ('(TOMLWizard)', False, {'key_transform_with_dump': 'NONE'}),
+    'file': ('(JSONWizard, JSONFileWizard)', True, None),
+    'json+yaml': ('(JSONWizard, YAMLWizard)', True, {'key_transform_with_dump': 'LISP'}),
+    'json+toml': ('(JSONWizard, TOMLWizard)', True, {'key_transform_with_dump': 'NONE'}),
+    'yaml-snake': ('(YAMLWizard, key_transform="SNAKE")', False, {'key_transform_with_dump': 'SNAKE'}),
+}
+MIXIN_GROUP = {'yaml': 'Y', 'json+yaml': 'Y', 'yaml-snake': 'Y', 'toml': 'T', 'json+toml': 'T', 'json': 'J', 'file': 'J', 'py': 'P', 'plain': '-'}
+LOAD_STYLES = ['CAMEL', 'CAMEL', 'SNAKE', 'PASCAL', 'LISP', 'NONE']
+ALIAS_KEY = 'fKey'
+FIELD_NAMES = ['some_val', 'when_at', 'inner_obj', 'dflt_val']
+FIELD_DEFAULTS = {'dflt_val': ['int', 3]}          # canonical defaults of the universe's defaulted scalar fields
+
+
+def pick_meta2(rng):
+    """settings split by direction: {'dump': {...}, 'load': {...}, 'special': {...}}"""
+    m = {'dump': {}, 'load': {}, 'special': {}}
+    if rng.random() < 0.6:
+        m['dump']['key_transform_with_dump'] = rng.choice(STYLES)
+    if rng.random() < 0.3:
+        m['dump']['marshal_date_time_as'] = rng.choice(['TIMESTAMP', 'ISO_FORMAT'])
+    if rng.random() < 0.3:
+        m['dump']['skip_defaults'] = True
+    if rng.random() < 0.6:
+        m['load']['key_transform_with_load'] = rng.choice(LOAD_STYLES)
+    if rng.random() < 0.35:
+        m['load']['raise_on_unknown_json_key'] = True
+    if rng.random() < 0.55:
+        m['special']['json_key_to_field'] = dict({ALIAS_KEY: 'some_val'}, **({'__all__': True} if rng.random() < 0.4 else {}))
+    if rng.random() < 0.25:
+        m['special']['tag'] = 'ftag'
+    if rng.random() < 0.1:
+        m['special']['recursive'] = False
+    if not (m['dump'] or m['load'] or m['special']):
+        m['dump']['key_transform_with_dump'] = rng.choice(STYLES)
+    return m
+
+
+def flat_meta(m):
+    return None if m is None else dict(m['dump'], **m['load'], **m['special'])
+
+
+def cls2(rng, name, kind, nested=None, shape='single', meta=None, style=None):
+    """source + bind ops of one class of the universe; returns (ops, full own meta as the library sees it)"""
+    bases, can_inner, implied = KINDS[kind]
+    inner = ''
+    binds = []
+    if meta is not None:
+        if style == 'inner':
+            assert can_inner
+            inner = '    class _(JSONWizard.Meta):\n' + ''.join(f'        {k} = {v!r}\n' for k, v in flat_meta(meta).items())
+        else:
+            load_part = dict(meta['load'])
+            if 'key_transform_with_load' in load_part:
+                load_part['key_transform'] = load_part.pop('key_transform_with_load')
+            dump_part = dict(meta['dump'])
+            if 'key_transform_with_dump' in dump_part:
+                dump_part['key_transform'] = dump_part.pop('key_transform_with_dump')
+            special = copy.deepcopy(meta['special'])
+            if style == 'bind-load':
+                parts = [('load', dict(load_part, **special))]
+            elif style == 'bind-dump':
+                parts = [('dump', dict(dump_part, **special))]
+            else:
+                sp_side = rng.choice(['load', 'dump'])
+                parts = [('load', dict(load_part, **(special if sp_side == 'load' else {}))),
+                         ('dump', dict(dump_part, **(special if sp_side == 'dump' else {})))]
+                rng.shuffle(parts)
+            binds = [{'op': 'bind', 'cls': name, 'kind': k, 'meta': mm} for k, mm in parts if mm]
+    fields = '    some_val: int\n    when_at: datetime\n'
+    if nested is not None:
+        fields += {'single': f'    inner_obj: {nested}\n', 'list': f'    inner_obj: list[{nested}]\n', 'optional': f'    inner_obj: Optional[{nested}]\n'}[shape]
+    fields += '    dflt_val: int = 3\n'
+    src = f'@dataclass\nclass {name}{bases}:\n{inner}{fields}'
+    own = dict(implied or {})
+    bound = {}
+    if meta is not None:
+        if style == 'inner':
+            bound = flat_meta(meta)
+        else:
+            for b in binds:
+                for k, v in b['meta'].items():
+                    bound[{'key_transform': 'key_transform_with_' + b['kind']}.get(k, k)] = v
+    if style == 'inner' and meta is not None:
+        own = bound if kind != 'py' else dict(own, **bound)      # an inner Meta replaces what the YAML / TOML mixin would have bound
+    else:
+        own.update(bound)
+    op = {'op': 'src', 'src': src, 'defines': [name], 'requires': [nested] if nested else [], 'metas': {name: own or None}}
+    if nested:
+        op['nests'] = {name: [nested]}
+    if own and own.get('recursive') is not False:
+        op['configured'] = [name]
+    return [op] + binds, (own or None)
+
+
+def _inst2(name, nested_expr=None, shape='single'):
+    e = f'{name}(some_val=1, when_at={DT}'
+    if nested_expr is not None:
+        e += ', inner_obj=' + {'single': nested_expr, 'list': f'[{nested_expr}]', 'optional': nested_expr}[shape]
+    return e + ')'
+
+
+def _doc2(rng, nested=False, shape='single', alias=False, extra=False, spell=False):
+    def key(k):
+        return _spell(k, rng.choice(['SNAKE', 'CAMEL', 'PASCAL', 'LISP'])) if spell else k
+    d = {key('some_val'): rng.choice([1, 2]), key('when_at'): rng.choice(['2020-01-01T00:00:00Z', 5])}
+    if rng.random() < 0.4:
+        d[key('dflt_val')] = 4
+    if alias:
+        d[ALIAS_KEY] = 99
+        if rng.random() < 0.3:
+            d = {k: v for k, v in d.items() if k.lower().replace('_', '').replace('-', '') != 'someval'}
+    if extra:
+        d[rng.choice(['bogus_key', 'bogusKey'])] = 1
+    if nested:
+        inner = _doc2(rng, False, alias=alias and rng.random() < 0.85, extra=extra and rng.random() < 0.5, spell=spell)
+        d[key('inner_obj')] = [inner] if shape == 'list' else inner
+    items = list(d.items())
+    rng.shuffle(items)
+    return dict(items)
+
+
+def _ops2(rng, name, kind, nested, shape, uses, n_docs=3, n_dumps=2):
+    """a pool of dumps and loads of one class: documents in every key spelling, with the configured family's alias key and an
+    unknown key now and then"""
+    can_method = kind != 'plain'
+    pool = []
+    for _ in range(n_dumps):
+        pool.append({'op': 'dump', 'cls': name, 'expr': _inst2(name, _inst2(nested) if nested else None, shape),
+                     'via': rng.choice(['asdict', 'method'] if can_method else ['asdict']), 'uses': uses})
+    for _ in range(n_docs):
+        pool.append({'op': 'load', 'cls': name, 'doc': _doc2(rng, bool(nested), shape, alias=rng.random() < 0.65, extra=rng.random() < 0.3, spell=rng.random() < 0.7),
+                     'via': rng.choice(['fromdict', 'method'] if can_method else ['fromdict']), 'uses': uses})
+    return pool
+
+
+def gen_pair2(rng, relation):
+    """as gen_pair, over the wider universe; returns (defs, F ops, G ops)"""
+    n, f = model.fresh('N'), model.fresh('F')
+    f_kind = rng.choice(list(KINDS))
+    _, can_inner, _ = KINDS[f_kind]
+    f_style = rng.choice((['inner', 'inner'] if can_inner else []) + ['bind-load', 'bind-dump', 'bind-both'])
+    f_meta = pick_meta2(rng)
+    shape = rng.choice(['single', 'single', 'list', 'optional'])
+    n_kind = rng.choice(['plain', 'plain', 'json'])
+    n_defs, _ = cls2(rng, n, n_kind)
+    f_defs, _ = cls2(rng, f, f_kind, n, shape, f_meta, f_style)
+    defs = n_defs + f_defs
+    f_ops = _ops2(rng, f, f_kind, n, shape, [f, n], n_dumps=3)
+    if relation == 'disjoint':
+        n2, g = model.fresh('N'), model.fresh('G')
+        # the unrelated family often uses the same mixin as the configured one
+        g_kind = rng.choice([k for k in KINDS if MIXIN_GROUP[k] == MIXIN_GROUP[f_kind]]) if rng.random() < 0.6 else rng.choice(list(KINDS))
+        g_meta = pick_meta2(rng) if rng.random() < 0.25 else None
+        g_style = rng.choice((['inner'] if KINDS[g_kind][1] else []) + ['bind-load', 'bind-dump', 'bind-both']) if g_meta else None
+        g_shape = rng.choice(['single', 'list'])
+        n2_defs, _ = cls2(rng, n2, rng.choice(['plain', 'json']))
+        g_defs, _ = cls2(rng, g, g_kind, n2, g_shape, g_meta, g_style)
+        g_all = n2_defs + g_defs
+        # G may be defined before or after F
+        defs = g_all + defs if rng.random() < 0.5 else defs + g_all
+        g_ops = _ops2(rng, g, g_kind, n2, g_shape, [g, n2], n_docs=4) + _ops2(rng, n2, 'plain', None, None, [n2], n_docs=1)
+    elif relation == 'shared-nested':
+        g = model.fresh('G')
+        g_kind = rng.choice(list(KINDS))
+        g_meta = pick_meta2(rng) if rng.random() < 0.4 else None
+        g_style = rng.choice((['inner'] if KINDS[g_kind][1] else []) + ['bind-load', 'bind-dump', 'bind-both']) if g_meta else None
+        g_shape = rng.choice(['single', 'list'])
+        g_defs, _ = cls2(rng, g, g_kind, n, g_shape, g_meta, g_style)
+        defs = defs + g_defs
+        g_ops = _ops2(rng, g, g_kind, n, g_shape, [g, n])
+    elif relation == 'nested-alone':
+        g_ops = _ops2(rng, n, n_kind, None, None, [n])
+    else:
+        raise ValueError(relation)
+    return defs, f_ops, g_ops
+
+
 def lite_meta(m):
     if m is None:
         return None
@@ -120,41 +308,54 @@ def fingerprint(out, order):
     return res
 
 
+def order_ops(rng, f_ops, g_ops):
+    """operations of the two families in one of the orders G before F (and once more after), F before G, interleaved"""
+    order = rng.choice(['g-first', 'f-first', 'interleaved'])
+    f_seq = [copy.deepcopy(rng.choice(f_ops)) for _ in range(rng.randint(1, 3))]
+    g_seq = [copy.deepcopy(rng.choice(g_ops)) for _ in range(rng.randint(1, 4))]
+    if order == 'g-first':
+        return g_seq + f_seq + copy.deepcopy(g_seq[:1])
+    if order == 'f-first':
+        return f_seq + g_seq
+    seq = []
+    a, b = list(f_seq), list(g_seq)
+    while a or b:
+        src = a if (a and (not b or rng.random() < 0.5)) else b
+        seq.append(src.pop(0))
+    return seq
+
+
 def run(ctx: C.Ctx):
     rng = ctx.rng
     ctx.rule = ('pairs of class families (F: a root with a Meta over {dump key transform, TIMESTAMP/ISO, recursive} nesting N; G: disjoint / '
-                'sharing the nested class N under another or no Meta / N used on its own / a later class with the same name) in every '
+                'sharing the nested class N under another or no Meta / N used on its own / a later class with the same name; and the '
+                'wider source-rendered universe: Meta given as inner class / LoadMeta / DumpMeta / both, classes on JSONWizard, JSONPyWizard, '
+                'YAMLWizard, TOMLWizard, JSONFileWizard and combinations, load key transforms, strict unknown keys, json_key_to_field, tag, '
+                'documents in every key spelling carrying the other family\'s alias key) in every '
                 'operation order (G before F, after F, interleaved); each history runs in a forked pristine child; every G operation is re-run '
                 'with only G\'s definitions in another pristine child (C07: behaviour of G with F == behaviour of G alone); dump outcomes are '
                 'reduced to (class, key style, timestamps?) fingerprints and compared with the Lean cache state machine. '
                 'Non-trivial = distinct (family pair, order, position).')
-    n = ctx.quick(90, 1200)
+    n = ctx.quick(360, 4000)
     reqs, pend = [], []
     for i in range(n):
         if ctx.done(i):
             break
         relation = rng.choice(['disjoint', 'disjoint', 'shared-nested', 'shared-nested', 'nested-alone', 'same-name'])
+        wide = relation != 'same-name' and rng.random() < 0.6
+        if wide and relation != 'disjoint' and rng.random() < 0.4:
+            relation = 'disjoint'      # unrelated families are where nothing at all may change
         if relation == 'same-name':
             ops, lite, ids = same_name_history(rng), None, None
         else:
-            defs, f_ops, g_ops, lite = gen_pair(rng, relation)
-            order = rng.choice(['g-first', 'f-first', 'interleaved'])
-            f_seq = [copy.deepcopy(rng.choice(f_ops)) for _ in range(rng.randint(1, 3))]
-            g_seq = [copy.deepcopy(rng.choice(g_ops)) for _ in range(rng.randint(1, 4))]
-            if order == 'g-first':
-                seq = g_seq + f_seq + g_seq[:1]
-            elif order == 'f-first':
-                seq = f_seq + g_seq
+            if wide:
+                (defs, f_ops, g_ops), lite = gen_pair2(rng, relation), None
             else:
-                seq = []
-                a, b = list(f_seq), list(g_seq)
-                while a or b:
-                    src = a if (a and (not b or rng.random() < 0.5)) else b
-                    seq.append(src.pop(0))
-            ops = defs + seq
+                defs, f_ops, g_ops, lite = gen_pair(rng, relation)
+            ops = defs + order_ops(rng, f_ops, g_ops)
         if not ctx.begin_case(i):
             continue
-        full = check_history(ctx, 'isolation:' + relation, i, ops, attribute=attribute_c07)
+        full = check_history(ctx, ('isolation-wide:' if wide else 'isolation:') + relation, i, ops, attribute=attribute_c07)
         # ---- correspondence with the cache state machine (dump fingerprints)
         if lite is not None and full and full[0] and full[0][0] != 'harness-error':
             names = list(lite)
@@ -217,7 +418,7 @@ def same_name_history(rng):
 
 
 def attribute_c07(ops, i, got, alone):
-    k = attribute_nested_leak(ops, i, got, alone)
+    k = attribute_nested_leak(ops, i, got, alone, field_names=FIELD_NAMES, field_defaults=FIELD_DEFAULTS)
     if k:
         return k
     # a later class with the same __qualname__ as an earlier class that declared an inner Meta
